@@ -8,6 +8,7 @@ CONSTANTS
     Debug = FALSE
     HookMode = "ok"
     PvSet = TRUE
+    Hang = FALSE
     DrainOnRefusal = FALSE
 VIEW View
 INVARIANTS InFrame NeverMisframed
